@@ -30,7 +30,7 @@ def gen_case(seed, idx):
     w1, w2 = rs.choice(wl), rs.choice(wl)
     A = ["port", (k, w1), "pa"]
     B = ["port", (k, w2), "pb"]
-    opk = rs.weighted([(8, "arith"), (4, "arithint"), (4, "div"), (3, "divint"), (3, "bitwise"), (4, "cmp"), (2, "cmpint"), (3, "shift"), (2, "unary"), (2, "resize"), (2, "view"), (2, "concat"), (2, "index"), (2, "slice")])
+    opk = rs.weighted([(8, "arith"), (4, "arithint"), (4, "div"), (3, "divint"), (3, "bitwise"), (4, "cmp"), (2, "cmpint"), (3, "shift"), (2, "unary"), (2, "resize"), (3, "conv"), (2, "view"), (2, "concat"), (2, "index"), (2, "slice")])
 
     def lit(w, kk, nz=False):
         lim = (1 << w) - 1 if kk == "U" else (1 << (w - 1)) - 1
@@ -76,6 +76,9 @@ def gen_case(seed, idx):
         e = [rs.choice(["neg", "abs"]), ("S", w1), A]
     elif opk == "resize":
         e = ["resize", (k, w1 + rs.range(0, 9)), A]
+    elif opk == "conv":
+        k0, k1 = rs.choice([("U", "U"), ("S", "S"), ("U", "S"), ("U", "S")])
+        e = ["conv", (k1, w1 + rs.range(1 if k0 != k1 else 0, 9)), ["port", (k0, w1), "pa"]]
     elif opk == "view":
         k1, k2 = rs.sample(["U", "S", "BV"], 2)
         e = ["view", (k2, w1), ["port", (k1, w1), "pa"]]
